@@ -345,7 +345,9 @@ static void addFamily(const std::string & fam, bool disp, int boundQuick, int bo
 			for(size_t ci = 0; ci < mine.size(); ++ci) {
 				const Config & cfg = mine[ci];
 				if(ctx.samples.size() < 3) ctx.samples.push_back(cfg.name());
-				DfsResult r = dfs(ctx, bound, [&]() {
+				// 3-thread configurations one preemption shallower than the 2-thread ones in the thorough tier
+				int cfgBound = (tier >= 1 && cfg.threads.size() >= 3) ? bound - 1 : bound;
+				DfsResult r = dfs(ctx, cfgBound, [&]() {
 					ctx.ex.choose(100000, 100000, K_OP);
 					Run<Target> run(ctx, cfg);
 					run.run();
@@ -389,19 +391,19 @@ struct PolSpinMap { using Threading = eventpp::GeneralThreading<eventpp::SpinLoc
 static struct Register {
 	Register() {
 #if VERIF_SUB < 0 || VERIF_SUB == 0
-		addFamily<ListT<PolV> >("C03/list/vmutex", false, 3, 4, 0);
+		addFamily<ListT<PolV> >("C03/list/vmutex", false, 3, 5, 0);
 #endif
 #if VERIF_SUB < 0 || VERIF_SUB == 1
-		addFamily<ListT<PolSpin> >("C03/list/spinlock", false, 2, 3, 0);
+		addFamily<ListT<PolSpin> >("C03/list/spinlock", false, 2, 4, 0);
 #endif
 #if VERIF_SUB < 0 || VERIF_SUB == 2
-		addFamily<DispT<PolVMap> >("C03/dispatcher/vmutex-map", true, 2, 3, 0);
+		addFamily<DispT<PolVMap> >("C03/dispatcher/vmutex-map", true, 2, 4, 0);
 #endif
 #if VERIF_SUB < 0 || VERIF_SUB == 3
-		addFamily<DispT<PolVHash> >("C03/dispatcher/vmutex-unordered_map", true, 2, 3, 0);
+		addFamily<DispT<PolVHash> >("C03/dispatcher/vmutex-unordered_map", true, 2, 4, 0);
 #endif
 #if VERIF_SUB < 0 || VERIF_SUB == 4
-		addFamily<DispT<PolSpinMap> >("C03/dispatcher/spinlock-unordered_map", true, 2, 2, 1);
+		addFamily<DispT<PolSpinMap> >("C03/dispatcher/spinlock-unordered_map", true, 2, 3, 1);
 #endif
 	}
 } reg;
